@@ -17,7 +17,7 @@ import subprocess
 import sys
 
 VERIF = os.path.dirname(os.path.dirname(os.path.abspath(__file__)))
-WT = "/tmp/confirm_wt"
+WT = os.environ.get("CONFIRM_WT", "/tmp/confirm_wt")
 
 
 def sh(cmd, cwd=None, timeout=3600):
